@@ -156,6 +156,36 @@ pub struct TryHandler {
     /// Iterator register for for-of iterator close (None for regular try)
     /// When set, this is a PushIterTry handler that should close the iterator on exception
     pub iterator_reg: Option<Register>,
+    /// When set, this entry is not a handler but the marker of a finally block that is
+    /// running: the completion FinallyEnd has to resume (catch_ip and finally_ip are 0)
+    pub finally_marker: Option<FinallyMarker>,
+}
+
+/// The completion a running finally block resumes when it ends normally.
+/// Leaving the block abruptly drops the marker with the rest of the try stack above the
+/// target, which is how the new completion overrides this one.
+#[derive(Debug, Clone, Copy)]
+pub struct FinallyMarker {
+    /// Register holding the returned / thrown value
+    pub value_reg: Register,
+    pub kind: FinallyCompletionKind,
+}
+
+#[derive(Debug, Clone, Copy)]
+pub enum FinallyCompletionKind {
+    Normal,
+    Return,
+    Throw,
+    Break {
+        target: usize,
+        try_depth: u8,
+        scope_depth: u8,
+    },
+    Continue {
+        target: usize,
+        try_depth: u8,
+        scope_depth: u8,
+    },
 }
 
 /// The four relational operators
@@ -1781,6 +1811,7 @@ impl BytecodeVM {
                         frame_depth: handler.frame_depth,
                         scope_depth: handler.scope_depth,
                         iterator_reg: handler.iterator_reg,
+                        finally_marker: None,
                     });
                 }
                 // Unwind any scopes that were entered in the try block
@@ -3416,6 +3447,7 @@ impl BytecodeVM {
                     frame_depth: self.call_stack.len(),
                     scope_depth: self.saved_env_stack.len(),
                     iterator_reg: None,
+                    finally_marker: None,
                 });
                 Ok(OpResult::Continue)
             }
@@ -3436,6 +3468,7 @@ impl BytecodeVM {
                     frame_depth: self.call_stack.len(),
                     scope_depth: self.saved_env_stack.len(),
                     iterator_reg: Some(iterator),
+                    finally_marker: None,
                 });
                 Ok(OpResult::Continue)
             }
@@ -3446,37 +3479,87 @@ impl BytecodeVM {
                 Ok(OpResult::Continue)
             }
 
-            Op::FinallyEnd => {
-                // Complete any pending return/throw/break/continue after finally block finishes
-                if let Some(pending) = self.pending_completion.take() {
-                    match pending {
-                        PendingCompletion::Return(guarded) => {
-                            // Continue with the return (recursively handles nested finally blocks)
-                            return self.execute_return(guarded.value, interp);
-                        }
-                        PendingCompletion::Throw(guarded) => {
-                            // Re-throw the exception after finally
-                            return Err(JsError::ThrownValue { guarded });
-                        }
-                        PendingCompletion::Break {
-                            target,
-                            try_depth,
-                            scope_depth,
-                        } => {
-                            // Continue with the break (recursively handles nested finally blocks)
-                            return self.execute_break(interp, target, try_depth, scope_depth);
-                        }
-                        PendingCompletion::Continue {
-                            target,
-                            try_depth,
-                            scope_depth,
-                        } => {
-                            // Continue with the continue (recursively handles nested finally blocks)
-                            return self.execute_continue(interp, target, try_depth, scope_depth);
-                        }
+            Op::FinallyStart { value } => {
+                // The completion that led here is this finally block's own from now on
+                let kind = match self.pending_completion.take() {
+                    None => FinallyCompletionKind::Normal,
+                    Some(PendingCompletion::Return(guarded)) => {
+                        self.set_reg(value, guarded.value);
+                        FinallyCompletionKind::Return
                     }
-                }
+                    Some(PendingCompletion::Throw(guarded)) => {
+                        self.set_reg(value, guarded.value);
+                        FinallyCompletionKind::Throw
+                    }
+                    Some(PendingCompletion::Break {
+                        target,
+                        try_depth,
+                        scope_depth,
+                    }) => FinallyCompletionKind::Break {
+                        target,
+                        try_depth,
+                        scope_depth,
+                    },
+                    Some(PendingCompletion::Continue {
+                        target,
+                        try_depth,
+                        scope_depth,
+                    }) => FinallyCompletionKind::Continue {
+                        target,
+                        try_depth,
+                        scope_depth,
+                    },
+                };
+                self.try_stack.push(TryHandler {
+                    catch_ip: 0,
+                    finally_ip: 0,
+                    registers_snapshot: self.registers.len(),
+                    frame_depth: self.call_stack.len(),
+                    scope_depth: self.saved_env_stack.len(),
+                    iterator_reg: None,
+                    finally_marker: Some(FinallyMarker {
+                        value_reg: value,
+                        kind,
+                    }),
+                });
                 Ok(OpResult::Continue)
+            }
+
+            Op::FinallyEnd => {
+                // The finally block ended normally: resume the completion it was entered with
+                let marker = match self.try_stack.last() {
+                    Some(TryHandler {
+                        finally_marker: Some(marker),
+                        ..
+                    }) => *marker,
+                    _ => return Err(JsError::internal_error("FinallyEnd without FinallyStart")),
+                };
+                self.try_stack.pop();
+                match marker.kind {
+                    FinallyCompletionKind::Normal => Ok(OpResult::Continue),
+                    FinallyCompletionKind::Return => {
+                        // Continue with the return (an enclosing finally block runs next)
+                        let val = self.get_reg(marker.value_reg).clone();
+                        self.execute_return(val, interp)
+                    }
+                    FinallyCompletionKind::Throw => {
+                        // Re-throw the exception after finally
+                        let val = self.get_reg(marker.value_reg).clone();
+                        Err(JsError::ThrownValue {
+                            guarded: Guarded::from_value(val, &interp.heap),
+                        })
+                    }
+                    FinallyCompletionKind::Break {
+                        target,
+                        try_depth,
+                        scope_depth,
+                    } => self.execute_break(interp, target, try_depth, scope_depth),
+                    FinallyCompletionKind::Continue {
+                        target,
+                        try_depth,
+                        scope_depth,
+                    } => self.execute_continue(interp, target, try_depth, scope_depth),
+                }
             }
 
             Op::GetException { dst } => {
